@@ -1,0 +1,70 @@
+//go:build verif
+
+package file
+
+import (
+	"os"
+	"sync"
+	"syscall"
+)
+
+// Verification hook of WriteFile, only compiled with the build tag "verif".
+//
+// Points: "created" (temporary file exists, empty), "written" (content
+// written, not closed), "closed" (closed, not renamed), "return" (WriteFile is
+// about to return: the rename was attempted, or an earlier step failed).
+//
+// In-process: a callback set with SetVerifHook is invoked at every point.
+// Cross-process: when the environment variable VERIF_CRASH_AT names a point,
+// the process kills itself with SIGKILL on reaching it; when VERIF_HOOK_DIR
+// is set, the process reports the point by writing a line to the named pipe
+// <dir>/<pid>.evt and blocks until it reads a byte from <dir>/<pid>.go.
+
+var (
+	verifMu sync.Mutex
+	verifCb func(point, path string)
+)
+
+// SetVerifHook installs the in-process callback (nil removes it).
+func SetVerifHook(h func(point, path string)) {
+	verifMu.Lock()
+	verifCb = h
+	verifMu.Unlock()
+}
+
+func verifHook(point, path string) {
+	verifMu.Lock()
+	cb := verifCb
+	verifMu.Unlock()
+	if cb != nil {
+		cb(point, path)
+	}
+	if at := os.Getenv("VERIF_CRASH_AT"); at != "" && at == point {
+		syscall.Kill(os.Getpid(), syscall.SIGKILL)
+		select {}
+	}
+	if dir := os.Getenv("VERIF_HOOK_DIR"); dir != "" {
+		pid := itoa(os.Getpid())
+		if evt, err := os.OpenFile(dir+"/"+pid+".evt", os.O_WRONLY, 0); err == nil {
+			evt.WriteString(point + " " + path + "\n")
+			evt.Close()
+			if g, err := os.OpenFile(dir+"/"+pid+".go", os.O_RDONLY, 0); err == nil {
+				var b [1]byte
+				g.Read(b[:])
+				g.Close()
+			}
+		}
+	}
+}
+
+func itoa(n int) string {
+	if n == 0 {
+		return "0"
+	}
+	var b []byte
+	for n > 0 {
+		b = append([]byte{byte('0' + n%10)}, b...)
+		n /= 10
+	}
+	return string(b)
+}
